@@ -5,11 +5,25 @@ theorems      : coq/Props/C16.v
                     (coq/Gen/Catalogue.v is regenerated from the repo by tools/translate/catalogue.py on every run; the finite
                     sweep `forallb check_entry all_entries = true` is lifted to all differential fields / parameters / points),
                 (B) numpy broadcasting of shapes and the two wrappers of lambdify_sympde (all shapes, by induction).
+                (A') classes that supply their own Jacobian / inverse Jacobian (class attributes _jac / _inv_jac, the four arms of
+                    Mapping.__new__, Model/CatalogueM.v `supplied`): the object exposes the supplied matrix unchanged, the other
+                    matrix of the pair is its inverse when the arm computes it, metric / determinant are those of the STORED
+                    Jacobian (C16_supplied_sound); a consistent class gets a coherent object, an inconsistent one is not repaired
+                    into a second inconsistency (C16_supplied_consistent_coherent / C16_supplied_inconsistent_kept),
 correspondence: (A) the same verified check evaluated inside Coq on the real objects built with concrete integer / rational
                     parameters and on random user-defined subclasses (each `true` is a kernel-checked proof for that mapping);
+                    the dimension given as int / tuple / list / Tuple / Matrix of length 1, coordinates= with user names (str or
+                    Symbol), curves and surfaces (pdim > ldim), mappings WITHOUT expressions (atoms d M[i]/d x_j), copy() through
+                    evaluate=False, the constructor's refusals as an enum;
+                (A') generated classes with _jac / _inv_jac / both (polynomial, trigonometric, written with the physical
+                    coordinates), consistent or with one planted entry: `check_supplied_parts` inside Coq on the real object and
+                    the supplied matrices in the runner's own reading; the symbols of the stored quantities must be the mapping's
+                    own logical coordinates / parameter objects;
                 (B) model vs numpy / the real lambdify_sympde / get_callable_mapping on random shapes, decided inside Coq.
 oracle        : the property itself on the implementation's outputs: exact rational evaluation (sympy.diff, explicit inverse,
                 J^T J, det) at random parameter sets x points; output shape == component shape + np.broadcast_shapes.
+                the symbolic information of the callable mapping (ldim / pdim / params / symbolic_mapping) against the mapping
+                it was built from and the parameters bound at construction (also CallableMapping(mapping, **params)).
 sampling only : (C) floating-point values of the callable mapping against 40-digit evaluation (a theorem cannot exhibit
                 floating-point behaviour) - labelled as sampling in the evidence.
 """
@@ -1134,7 +1148,7 @@ def main(run, replay=None):
                        case, observed=inner.get("fails", [])[:1], found_input=False,
                        theorem_or_case="correspondence CatalogueM.chk_supplied vs Mapping.__new__ (arms _jac / _inv_jac)")
                 continue
-            if planted and ((planted == "jac" or mode != "both") and "jac" not in kref or (mode == "both" and "jinv" not in kref)):
+            if planted and ("jinv" if (mode == "both" and planted == "inv") else "jac") not in kref:
                 report({"part": tag, "kind": "planted-inconsistency-not-visible", "supplied": mode},
                        "the inconsistent matrix supplied by %s is not visible in what the object exposes" % c["entry"], case,
                        observed={"against_expressions": kref}, found_input=False, theorem_or_case="oracle:user-supplied (generator)")
@@ -1415,8 +1429,10 @@ def main(run, replay=None):
     cov = {
         "evaluations": int(evaluations),
         "distinct_nontrivial": len(distinct),
-        "rule": "evaluations = boolean checks evaluated inside Coq (5 per catalogue entry / per concrete-parameter object / per user subclass; one "
-                "per shape comparison) + exact-oracle points + floating-point values compared; non-trivial = a mapping whose coordinate "
+        "rule": "evaluations = boolean checks evaluated inside Coq (5 per catalogue entry / per concrete-parameter object / per user subclass / "
+                "per mapping without expressions, 6 per class that supplies its own matrices; one per shape comparison) + constructor-enum "
+                "cases + objects whose dimensions / coordinates / symbols were compared + callable-property comparisons "
+                "+ exact-oracle points + floating-point values compared; non-trivial = a mapping whose coordinate "
                 "expressions contain an elementary function or >= 3 atoms, a shape case with >= 2 different input shapes or an array-valued "
                 "expression, a callable-mapping shape run; distinct = canonical hash of (expressions, determinant) resp. (component shape, "
                 "masks, input shapes)",
@@ -1467,6 +1483,13 @@ def main(run, replay=None):
         "mappings is None in the implementation and is not checked.",
         "tequiv=false is 'not proved': concrete-parameter objects / user subclasses whose check does not evaluate to true are decided by "
         "the exact numeric oracle only and counted as checker_incomplete (no alarm).",
+        "Classes that supply _jac / _inv_jac: the property quantifies over consistent definitions; for an INCONSISTENT class (planted "
+        "entry) nothing in the code validates the matrix and the property demands nothing but that the object is not made incoherent a "
+        "second time: it exposes the supplied matrix unchanged with the inverse / metric / determinant of that matrix (in the arm that "
+        "takes both matrices, both are stored as given). The supplied matrices enter the Coq check in the runner's own reading of the "
+        "strings (names matched, simultaneous replacement), independent of Mapping.__new__.",
+        "A surface / curve class that supplies an inverse (l x p) matrix is not generated (Mapping.__new__ would store it, the model's "
+        "shape check expects no inverse for pdim > ldim).",
     ]
     return run.finish(cov, assumptions)
 
